@@ -298,9 +298,14 @@ def match_nth(ctx, el, a, b, last=False, of_type=False, of=None):
     return anb(a, b, pos)
 
 
+def is_iframe(ctx, el):
+    """An HTML `iframe` element of an HTML document (documented: each iframe holds its own document)."""
+    return is_elem(el) and ctx.is_html and ctx.fold_name(el.name) == 'iframe' and ctx.is_html_el(el)
+
+
 def match_root(ctx, el):
     p = el.parent
-    if p is not None and not isinstance(p, BeautifulSoup):
+    if p is not None and not isinstance(p, BeautifulSoup) and not is_iframe(ctx, p):
         return False
     if p is None:
         return True
@@ -372,7 +377,10 @@ def match_pseudo(ctx, el, p):
 
 
 def match_compound(ctx, el, c, top_level):
-    if not match_tag(ctx, el, c.get('tag'), top_level):
+    tag = c.get('tag')
+    if tag is None and not (c.get('ids') or c.get('classes') or c.get('attrs') or c.get('ps')):
+        tag = {'ns': None, 'name': '*'}     # an empty compound is rendered as an explicit `*`
+    if not match_tag(ctx, el, tag, top_level):
         return False
     eid = None
     for i in c.get('ids', ()):
